@@ -130,5 +130,51 @@ def run(rep, tier, seed, replay=None):
         return out
 
     vlib.correspond(rep, cases, oracle=oracle, trivial=netprops.trivial, tag="c13")
+    # ---- the HTTP game (Eco) against hostile HTTP servers (implementation only; the client is a parameter of the model):
+    # announced lengths far beyond the body, on the first answer or on the answer to whatever request FOLLOWS an error
+    # status / a document of another shape / a redirect; huge chunk sizes; endless header lines; long bodies.  Whatever the
+    # client goes on to ask for, no header may size its memory.
+    def http(status, headers, body=b""):
+        return (f"HTTP/1.1 {status}\r\n" + "".join(f"{k}: {v}\r\n" for k, v in headers) + "\r\n").encode() + body
+    big = ["268435456", "1073741823", "1073741824", "4294967296", "18446744073709551615", "99999999999999999999999"]
+    doc = b'{"Info":{}}'
+    other = b'{"Version":"0.8","Players":3}'
+    firsts = [http("404 Not Found", [("Content-Length", "9"), ("Connection", "close")], b"not found"),
+              http("500 Internal Server Error", [("Connection", "close")], b""),
+              http("200 OK", [("Content-Type", "application/json"), ("Content-Length", str(len(other))), ("Connection", "close")], other),
+              http("200 OK", [("Content-Type", "text/html"), ("Connection", "close")], b"<html></html>"),
+              http("301 Moved Permanently", [("Location", "/info"), ("Content-Length", "0"), ("Connection", "close")]),
+              http("302 Found", [("Location", "/frontpage2"), ("Content-Length", "0"), ("Connection", "close")]),
+              http("204 No Content", [("Connection", "close")])]
+    hostile = []
+    for n in big:
+        lie = http("200 OK", [("Content-Type", "application/json"), ("Content-Length", n), ("Connection", "close")], doc)
+        hostile.append(("announced-length", [lie]))
+        for f in firsts:
+            hostile.append(("announced-length-after-" + f.split(b"\r\n")[0].split(b" ")[1].decode(), [f, lie]))
+    hostile.append(("chunk-size", [http("200 OK", [("Transfer-Encoding", "chunked"), ("Connection", "close")], b"7fffffff\r\n" + doc)]))
+    hostile.append(("chunk-size", [http("200 OK", [("Transfer-Encoding", "chunked"), ("Connection", "close")], b"ffffffffffffffff\r\n" + doc)]))
+    hostile.append(("header-flood", [b"HTTP/1.1 200 OK\r\n" + b"".join(b"X-%d: %s\r\n" % (i, b"y" * 1000) for i in range(3000))]))
+    hostile.append(("long-status-line", [b"HTTP/1.1 200 " + b"O" * 3_000_000 + b"\r\n\r\n"]))
+    hostile.append(("long-body", [http("200 OK", [("Connection", "close")], b'{"Info":{"Description":"' + b"x" * 3_000_000 + b'"}}')]))
+    hlines = [f"hx{k} eco_hostile " + ",".join(r.hex() for r in replies) for k, (what, replies) in enumerate(hostile)]
+    himpl, hpanics = vlib.run_impl(hlines, tag="c13h")
+    for k, (what, replies) in enumerate(hostile):
+        out = himpl.get(f"hx{k}", "")
+        rep.seen(hlines[k][:200], out[:200])
+        rep.count("hostile-http:" + what)
+        bad = netprops.crash_oracle(hlines[k], out, out, hpanics.get(f"hx{k}", ""))
+        a = vlib.alloc_of(out)
+        if a is not None:
+            worst["peak"] = max(worst["peak"], a[0])
+            worst["largest"] = max(worst["largest"], a[1])
+            if a[1] > 16 * MIB:
+                bad.append(("alloc-single:eco-http", f"{what}: a single request of {a[1]} bytes (> 16 MiB); requests seen {out.split(' ;; ')[1][:120]}"))
+            if a[0] > 64 * MIB:
+                bad.append(("alloc-live:eco-http", f"{what}: {a[0]} bytes live at once (> 64 MiB)"))
+        nreq = len([x for x in out.split(" ;; ")[1][2:].split(",") if x]) if " ;; H:" in out else 0
+        if nreq > 8:
+            bad.append(("too-many-requests:eco-http", f"{what}: {nreq} HTTP requests for one query"))
+        rep.oracle_failures += [(sg, d, hlines[k][:4000], out[:300]) for sg, d in bad]
     rep.extra_cov["worst_peak_live_bytes"] = worst["peak"]
     rep.extra_cov["worst_single_request_bytes"] = worst["largest"]
